@@ -12,24 +12,33 @@ TARGETS = ["Props/C01.v"]
 
 MANIFEST = dict(
     text="Theorems (Rocq): for ALL histories of committed component messages x ALL compaction points x ALL leftovers of an "
-         "interrupted earlier compaction attempt, the node restarted from (snapshot file, log, last_applied) is "
-         "observationally equivalent on every component to the node that ran the history (C01_restart_reproduces), "
-         "given the components' snapshot round-trip laws and the C20 framing theorem as explicit premises; the snapshot "
-         "fan-out tables (build order, tree-name routing incl. the unknown-tree arm, tree names each component writes) "
-         "are REGENERATED from raftdata.rs and the component sources on every run and proved closed "
-         "(C01_tree_names_closed); the snapshot file round trip and the interrupted-compaction statement hold at full "
-         "strength for the repaired writer, with a refuted witness for the writer without truncate. Tied to the code by "
-         "the translator and by three correspondence suites on the real code: SnapshotWriter/Reader vs the file model, "
-         "load_snapshot routing vs the generated table, and multi-phase restarts of a full in-process single-node Raft "
-         "(all ClientRequest kinds, natural compactions, planted partial snapshot files) whose post-restart dump is "
-         "diffed against the pre-stop dump.",
-    note="proof, partial: the component internals (Config, Sequence, Namespace, Table, Naming, MCP, direct cache) enter "
-         "through the interface {apply; snapshot; load_record; observe} with the round-trip law as a hypothesis and are "
-         "validated here only by the restart harness (concrete Config/Sequence models belong to another package); "
+         "interrupted earlier compaction attempt, the node restarted from (snapshot file BYTES, log, last_applied) is "
+         "observationally equivalent on every component to the node that ran the history. Generic form "
+         "(C01_restart_reproduces) over a component interface with invariants; CONCRETE form without component, framing or "
+         "codec premises (C01_restart_reproduces_config_seq) for the ConfigActor store (cache with content/md5/type/desc/"
+         "history/last_modified, listed keys, history-id high-water mark: builder E's model), SequenceDbManager and the "
+         "TableManager rows: their snapshot round-trip laws are PROVED (C01_config_snapshot_roundtrip, "
+         "C01_component_roundtrip_laws) over byte-level codecs (LogSnapshotItem, ConfigValueDO/ConfigHistoryItemDO, "
+         "id_to_bin) built on the protobuf wire layer, and the C20 framing theorem chunking_invariance discharges the "
+         "file layer. The snapshot fan-out tables (build order, tree-name routing incl. the unknown-tree arm, tree names "
+         "each component writes) are REGENERATED from raftdata.rs and the component sources on every run and proved closed "
+         "(C01_tree_names_closed). Interrupted compaction: full strength for the repaired writer, refuted witness for the "
+         "writer without truncate; compaction racing with apply: exact on replay-idempotent components "
+         "(C01_restart_racy_idempotent), refuted on accumulating ones. Tied to the code by the translator and by "
+         "correspondence suites on the real code: SnapshotWriter/Reader vs the file model, load_snapshot routing vs the "
+         "generated table, REAL record / ConfigValueDO / id_to_bin bytes vs the model encoders and decoders, and "
+         "multi-phase restarts of a full in-process single-node Raft (all ClientRequest kinds, natural compactions, planted "
+         "partial snapshot files) whose post-restart dump is diffed against the pre-stop dump.",
+    note="proof, partial: Namespace, Naming, MCP and direct cache still enter only through the interface {apply; snapshot; "
+         "load_record; observe} with the round-trip law as hypothesis (known findings show that the law FAILS for cache, "
+         "MCP, namespace marker/weak flags); the concrete corollary assumes requests in scope (imported keys are "
+         "ConfigKeys, sequence key != SEQ_CONFIG, tables T_USER/T_CACHE, no temporary follower values) and an encodable "
+         "state at the compaction point (byte strings, u64 ids); UTF-8 validation of protobuf strings is not modelled; "
          "compaction concurrent with apply is only sampled; last_applied is assumed flushed at the stop point. Trusted: "
-         "Coq kernel+vm_compute, translators (self-tested), harness/runner glue, protobuf encoders as injective codecs.",
-    technique="Rocq proof (fold/fan-out lemmas over generated tables, file model over the C20 framing) + translator + "
-              "model/implementation correspondence + restart oracle on a real in-process node",
+         "Coq kernel+vm_compute, translators (self-tested), harness/runner glue.",
+    technique="Rocq proof (fold/fan-out lemmas over generated tables, file model over the C20 framing, protobuf codecs over "
+              "PbWire, concrete component models) + translator + model/implementation correspondence + restart oracle "
+              "on a real in-process node",
     design="3/C01",
 )
 
@@ -595,10 +604,10 @@ def run(chk, replay=None):
                                      "out_of_scope_table_differences_not_judged": out_of_scope,
                                      "restarts_with_shorter_raft_log": log_lost}
     chk.assumptions += [
-        "C20 framing theorem (chunking invariance of MessageBufReader) in the 1024-byte-block instance: premise of the file-level theorems",
-        "component round-trip laws (snapshot -> load_record reproduces an observationally equivalent state) and snap_routed: premises, "
-        "validated by the restart harness on the real actors",
-        "protobuf record/header encoders are faithful codecs (dec(frame(enc r)) = r), header frame fits the first 1024-byte read",
+        "generic theorems: component round-trip laws and snap_routed are premises; DISCHARGED for Config, Sequence and Table rows "
+        "(SM/Concrete.v), still premises for Namespace, Naming, MCP, direct cache (validated / refuted by the restart harness)",
+        "concrete corollary: requests in scope (n_mok), encodable state at the compaction point (n_ok), header frame fits the first "
+        "1024-byte read; protobuf string fields are byte strings (UTF-8 validation not modelled)",
         "the stop point is after quiescence and flush: last_applied on disk = last committed index",
         "compaction concurrent with apply (a snapshot containing effects of entries beyond its last_index) is only sampled",
     ]
